@@ -21,7 +21,7 @@ ANCHORS = ['pycaption.base:Caption.__init__', 'pycaption.base:CaptionSet.__init_
            'pycaption.sami:SAMIReader._translate_lang']
 REQUIRE = {'reads': 300, 'reads_on_reused_reader': 80, 'edits': 80, 'writes_between_reads': 30,
            'results_compared_with_pristine_child': 300, 'results_rechecked_at_end': 200, 'child_processes': 10,
-           'reads_scc_reused': 10, 'reads_microdvd_reused': 5, 'reads_of_ill_formed_documents_that_raised': 20, 'reads_sami_multi_language': 10, 'add_style_then_later_read': 10}
+           'reads_scc_reused': 10, 'reads_microdvd_reused': 5, 'reads_of_ill_formed_documents_that_raised': 20, 'reads_of_styled_documents': 20, 'reads_sami_multi_language': 10, 'add_style_then_later_read': 10}
 SHARDS = {'quick': 8, 'thorough': 16}
 TIME_LIMIT = {'quick': 1200, 'thorough': 5400}
 FORMATS = ['srt', 'webvtt', 'dfxp', 'sami', 'microdvd', 'scc']
@@ -43,6 +43,9 @@ def gen_doc(rng, tag, ctx):
         if rng.random() < 0.25:
             kw['offset'] = rng.choice([1, 2, 30])
         return {'format': 'scc', 'doc': sccprog.scc_doc(lines), 'reader_kwargs': {}, 'read_kwargs': kw, 'nlang': 1}
+    if fmt in ('sami', 'dfxp') and rng.random() < 0.3:
+        d = (docs.gen_sami_styled if fmt == 'sami' else docs.gen_dfxp_styled)(rng, tag)
+        return {'format': fmt, 'doc': d['doc'], 'reader_kwargs': {}, 'read_kwargs': {}, 'nlang': 1, 'styled': True}
     if fmt == 'sami' and rng.random() < 0.6:
         d = docs.generate('sami', rng, tag, ctx, text=inline.rich_lines, nlang=rng.choice([2, 3, 4]))
     elif fmt == 'dfxp' and rng.random() < 0.4:
@@ -205,6 +208,8 @@ def check(case, ctx):
                 if op['reuse']:
                     readers[key] = reader
             ctx.count('reads')
+            if d.get('styled'):
+                ctx.count('reads_of_styled_documents')
             if d['format'] == 'sami' and d['nlang'] > 1:
                 ctx.count('reads_sami_multi_language')
             if style_added:
